@@ -865,13 +865,14 @@ def random_node(b, gens=NODE_GENS):
 
 
 # ----------------------------------------------------------------------------------------- nnet layers / losses
-def _rand_valid_axis(rng):
-    """(X, W, s, p, d) with (X + 2p - ((W-1)d+1)) / s + 1 a positive integer."""
-    for _ in range(50):
+def _rand_valid_axis(rng, documented_only=False):
+    """(X, W, s, p, d) with (X + 2p - ((W-1)d+1)) / s + 1 a positive integer. Unless `documented_only`, configurations in the region
+    of the recorded finding conv-dilation-overreject (W*d > X + 2p) are left out, so that programs using conv as an inner node run."""
+    for _ in range(80):
         W, s, p, d = rng.randint(1, 3), rng.randint(1, 3), rng.choice([0, 0, 1, 2]), rng.choice([1, 1, 2, 3])
         g = rng.randint(1, 3)
         X = (g - 1) * s + (W - 1) * d + 1 - 2 * p
-        if 1 <= X <= 7:
+        if 1 <= X <= 7 and (documented_only or W * d <= X + 2 * p):
             return X, W, s, p, d
     return 3, 2, 1, 0, 1
 
@@ -879,7 +880,7 @@ def _rand_valid_axis(rng):
 def g_conv(b):
     rng = b.rng
     nsp = rng.choice([1, 1, 2, 2, 3])
-    axes = [_rand_valid_axis(rng) for _ in range(nsp)]
+    axes = [_rand_valid_axis(rng, documented_only=getattr(b, "conv_documented", False)) for _ in range(nsp)]
     N, C, Fn = rng.randint(1, 2), rng.randint(1, 2), rng.randint(1, 2)
     x = b.leaf((N, C) + tuple(a[0] for a in axes), kind=rng.choice(["tensor", "tensor", "array"]), constant=rng.choice([None, None, True]))
     w = b.leaf((Fn, C) + tuple(a[1] for a in axes), kind=rng.choice(["tensor", "tensor", "array"]))
